@@ -137,6 +137,16 @@ func AllegGenesis() GenesisSpec {
 	return gs
 }
 
+// EthGenesis: four validators that are all ethereum witnesses (threshold 3 of 4); accounts hold
+// wrapped ETH so that redeems are possible.
+func EthGenesis() GenesisSpec {
+	gs := AllegGenesis()
+	gs.Witnesses = []string{"v1", "v2", "v3", "v4"}
+	gs.EthBalance = 5000
+	gs.EthSupplyCap = "100000"
+	return gs
+}
+
 type Genesis struct {
 	Spec       GenesisSpec
 	Doc        *config.GenesisDoc
